@@ -158,12 +158,45 @@ func ocPathConds(cfg ocCfg, names map[string]string, fn *ssa.Function, target ss
 	tb := target.Block()
 	onPath := map[*ssa.BasicBlock]bool{}
 	budget := 20000
+	// boolean temporaries (`ok := a || b`; `if ok`) are phis whose value on a path is the value
+	// of the edge the path came in by: a constant, or another condition
+	phiVal := map[*ssa.Phi]ssa.Value{}
+	var walkFrom func(b *ssa.BasicBlock, cur ocAtoms, pred *ssa.BasicBlock)
 	var walk func(b *ssa.BasicBlock, cur ocAtoms)
-	walk = func(b *ssa.BasicBlock, cur ocAtoms) {
+	walk = func(b *ssa.BasicBlock, cur ocAtoms) { walkFrom(b, cur, nil) }
+	walkFrom = func(b *ssa.BasicBlock, cur ocAtoms, pred *ssa.BasicBlock) {
 		if budget <= 0 {
 			return
 		}
 		budget--
+		var restore []func()
+		if pred != nil {
+			for _, in := range b.Instrs {
+				ph, ok := in.(*ssa.Phi)
+				if !ok {
+					break
+				}
+				for i, pr := range b.Preds {
+					if pr == pred {
+						old, had := phiVal[ph]
+						phiVal[ph] = ph.Edges[i]
+						p2 := ph
+						restore = append(restore, func() {
+							if had {
+								phiVal[p2] = old
+							} else {
+								delete(phiVal, p2)
+							}
+						})
+					}
+				}
+			}
+		}
+		defer func() {
+			for _, f := range restore {
+				f()
+			}
+		}()
 		if b == tb {
 			k := cur.String()
 			if !seenKey[k] {
@@ -178,14 +211,38 @@ func ocPathConds(cfg ocCfg, names map[string]string, fn *ssa.Function, target ss
 		onPath[b] = true
 		defer func() { onPath[b] = false }()
 		iff, _ := b.Instrs[len(b.Instrs)-1].(*ssa.If)
+		// resolve a boolean temporary to what it holds on this path
+		var cond ssa.Value
+		flip := false
+		if iff != nil {
+			cond = iff.Cond
+			for k := 0; k < 6; k++ {
+				if u, ok := cond.(*ssa.UnOp); ok && u.Op == token.NOT {
+					cond, flip = u.X, !flip
+					continue
+				}
+				if ph, ok := cond.(*ssa.Phi); ok {
+					if v, known := phiVal[ph]; known {
+						cond = v
+						continue
+					}
+				}
+				break
+			}
+		}
 		for i, sc := range b.Succs {
 			nxt := cur.clone()
 			if iff != nil && b.Succs[0] != b.Succs[1] {
-				if ocAtomOf(cfg, names, iff.Cond, i == 0, field, &nxt) {
+				pol := (i == 0) != flip
+				if k, isConst := cond.(*ssa.Const); isConst && k.Value != nil {
+					if v, isB := boolConst(k); isB && v != pol {
+						continue // the temporary is known on this path: the other branch is not taken
+					}
+				} else if ocAtomOf(cfg, names, cond, pol, field, &nxt) {
 					continue // contradictory path
 				}
 			}
-			walk(sc, nxt)
+			walkFrom(sc, nxt, b)
 		}
 	}
 	walk(fn.Blocks[0], ocAtoms{st: map[string]bool{}})
